@@ -484,8 +484,8 @@ def run(ctx):
         "and beyond the cap) and [Insert e] cost the same; tails `'d'^k 'x'` / `Ds` chosen so that the inserting candidate truly parses "
         "further (the auditor's grammar and its two runs n = 255 / 240), the deleting one does, both reach the end, or the inserting one "
         "fails before the cap (control) — quick: the 6 fixed cases + 10 sampled from the grid n x ki x kd x |tail|, thorough: the whole "
-        "grid (1040); and the auditor's UNIT-cost grammar `S: 'p' 'q' Rest; Rest: Ps 'z' | 'k'^G 'x' Ts 'z'; ..` on (p q x)^G z "
-        "(G = 70, 84 quick; 60..100 thorough; release harness, budget %d ms through the hook): deleting the G x's ends at in_laidx + "
+        "grid (520); and the auditor's UNIT-cost grammar `S: 'p' 'q' Rest; Rest: Ps 'z' | 'k'^G 'x' Ts 'z'; ..` on (p q x)^G z "
+        "(G = 70, 84 quick; 60, 70, 83, 84, 85, 90, 100 thorough; release harness, budget %d ms through the hook): deleting the G x's ends at in_laidx + "
         "3G - 1.  Oracle as for every C06 case: set equality with the extracted reference (no edit bound for these families: the "
         "enumeration trees are chains); where the reference is out of reach (unit costs, >= 60 edits) the search mirror stands in for "
         "it on the FIRST error, and only when wf/validS/validC/validE/single_candidate/no_shift_eof/rank_fuel_ok all evaluate to true "
